@@ -117,6 +117,19 @@ Theorem c18_stream_roundtrip : forall l, items_wf l -> items_fits 2 32 l -> dec_
 Proof. exact stream_roundtrip. Qed.
 Print Assumptions c18_stream_roundtrip.
 
+(* soundness of the reader: whatever it accepts is exactly the canonical encoding of the
+   tree it returns (magic, abbreviation ids 0/1/3 only, canonical VBRs, zero padding to
+   32-bit boundaries, every block length word = body length in words, widths in [2,32]) *)
+Theorem c18_stream_reader_sound : forall bs l, dec_stream bs = Ok l ->
+  bs = enc_stream l /\ items_wf l /\ items_fits 2 32 l.
+Proof. exact dec_stream_sound. Qed.
+Print Assumptions c18_stream_reader_sound.
+
+Theorem c18_vbr_reader_sound : forall w r v r', (2 <= w)%nat -> read_vbr w r = Some (v, r') ->
+  0 <= v /\ snd r = enc_vbr w v ++ snd r' /\ fst r' = fst r + Z.of_nat (length (enc_vbr w v)).
+Proof. exact read_vbr_sound. Qed.
+Print Assumptions c18_vbr_reader_sound.
+
 (* end to end: the reader applied to the bytes the writer machine produced returns the tree *)
 Theorem c18_writer_reader_roundtrip : forall l, items_mwf l -> forallb is_block l = true -> items_fits 2 32 l ->
   exists bytes, serialize_tree l = Some bytes /\ dec_bytes bytes = Ok l.
@@ -197,7 +210,7 @@ Print Assumptions c18_bypass_hash.
 (* an accepted container is the canonical serialization of its parts; a "retail"
    verdict means the digest field equals the retail hash of bytes 20..end; an accepted
    HASH part is MD5 of the bitcode; an accepted stream is what the verified reader
-   returns; an accepted index check means every collected reference is in range *)
+   returns and its bits are the canonical encoding of that tree; an accepted index check means every collected reference is in range *)
 Theorem c18_check_container_sound : forall steps b r, check_container steps b = Some r ->
   exists d ps,
     parse b = Some (d, ps) /\ b = build d ps /\ zlen b = total_size ps /\ length d = 16%nat /\
@@ -208,7 +221,8 @@ Theorem c18_check_container_sound : forall steps b r, check_container steps b = 
        exists pd a h, find_part FourCC_DXIL ps = Some pd /\ parse_program (p_data pd) = Some a /\
                       find_part FourCC_HASH ps = Some h /\ p_data h = [0; 0; 0; 0] ++ md5 steps (pg_bitcode a)) /\
     (forall l, r_stream r = Ok l ->
-       exists pd a, find_part FourCC_DXIL ps = Some pd /\ parse_program (p_data pd) = Some a /\ dec_bytes (pg_bitcode a) = Ok l) /\
+       exists pd a, find_part FourCC_DXIL ps = Some pd /\ parse_program (p_data pd) = Some a /\ dec_bytes (pg_bitcode a) = Ok l /\
+                    bits_of_bytes (pg_bitcode a) = enc_stream l /\ items_wf l /\ items_fits 2 32 l) /\
     (r_meta r = Some (Some None) ->
        exists l refs, r_stream r = Ok l /\ meta_refs l = Some refs /\ Forall ref_in_range refs).
 Proof. exact check_container_sound. Qed.
